@@ -720,7 +720,32 @@ def tree2mesh(tree):
             mp = next((s for s in ast.walk(fn) if isinstance(s, ast.Assign) and isinstance(s.targets[0], ast.Name) and s.targets[0].id == sub.value.id), None)
             src = _src(mp.value) if mp is not None else ''
             by_pos = src.startswith('dict(zip(x.nodes.node_id,np.arange(len(x.nodes))))') and 'x.segments' in _src(seg.value)
-    return dict(repeat=rep, conds=conds, process=proc, id2ix_positions=by_pos)
+    # single-node segments: `for ix in [seg[0] for seg in <segments> if len(seg) == 1]:` appends a sphere (radius = the node's radius
+    # times the scale factor, centred on the node's coordinates) and `np.repeat(ix, <#sphere vertices>)` to the vertex map
+    single = 'skipped'
+    for lp in ast.walk(fn):
+        if not isinstance(lp, ast.For) or not isinstance(lp.target, ast.Name):
+            continue
+        it = lp.iter
+        if isinstance(it, ast.Name):
+            d = next((s for s in ast.walk(fn) if isinstance(s, ast.Assign) and isinstance(s.targets[0], ast.Name) and s.targets[0].id == it.id), None)
+            it = d.value if d is not None else it
+        if not (isinstance(it, ast.ListComp) and it.generators[0].ifs and _src(it.generators[0].iter) == over):
+            continue
+        g = it.generators[0]
+        c = g.ifs[0]
+        one = isinstance(c, ast.Compare) and _src(c.left) == f'len({g.target.id})' and isinstance(c.ops[0], ast.Eq) and _src(c.comparators[0]) == '1' \
+            and _src(it.elt) == f'{g.target.id}[0]'
+        v = lp.target.id
+        body = ' ; '.join(_src(x) for x in lp.body)
+        sphere = next((x for x in ast.walk(lp) if isinstance(x, ast.Call) and _src(x.func).endswith('icosphere')), None)
+        rad = _src(_kw(sphere, 'radius')) if sphere is not None and _kw(sphere, 'radius') is not None else ''
+        if one and sphere is not None and rad == f'radii_map[{v}]*radius_scale_factor' and f'+co_map[{v}]' in body \
+                and f'np.repeat({v},len(' in body and '+len(vertices)' in body:
+            # the per-sphere map entries are added to the list that is concatenated into `.vertex_map`
+            added = any(isinstance(x, ast.AugAssign) and isinstance(x.op, ast.Add) and _src(x.target) == cc.args[0].id for x in ast.walk(fn))
+            single = 'sphere' if added else 'sphere-unmapped'
+    return dict(repeat=rep, conds=conds, process=proc, id2ix_positions=by_pos, single=single)
 
 
 def mesh2skel(tree):
@@ -1067,6 +1092,8 @@ def generate(repo: Path):
     A(f'def tubeVertexMapConds : List Cmp := {_cmps(tm_["conds"])}')
     A(f'def tubeMeshProcess : Bool := {_b(tm_["process"])}')
     A(f'def tubeSegmentsByPosition : Bool := {_b(tm_["id2ix_positions"])}')
+    A('/-- what `tree2meshneuron` does with single-node segments (`make_tube` skips them): "sphere" = a sphere of the node\'s radius around the node, with vertex-map entries. -/')
+    A(f'def tubeSingleNodeSegments : String := {_s(tm_["single"])}')
     A(f'def voxelMeshAddsOffset : Bool := {_b(me["add_offset"])}')
     A(f'def voxelMeshAutoSpacing : String := {_s(me["auto_spacing"])}')
     A(f'def singlePad : Nat := {me["pad"]}')
